@@ -101,6 +101,10 @@ def check_readback(ctx, backend, e, text):
     except Exception:  # noqa: BLE001
         ctx.case(False, label="skipped:unexpected-exception(C19)")
         return
+    for tag in ent.tags:
+        if tag.startswith("sibling:"):
+            acc, _, val = tag[8:].partition("=")
+            ctx.check(getattr(u, acc) == val, "a modifier changed the sibling component of the one it targets", observed={acc: getattr(u, acc)}, expected=val, entry=e)
     nontrivial = "%" in t or any(c in "/?#@:&=+; " or ord(c) < 0x20 or ord(c) > 0x7E for c in t)
     ctx.case(nontrivial, label="readback/" + e, key=(e, backend, t))
     if ent.comp == "qpair":
@@ -118,7 +122,22 @@ def check_readback(ctx, backend, e, text):
     ctx.check(got == exp, "supplied decoded value does not read back unchanged", observed=got, expected=exp, entry=e)
 
 
-CHECKS = {"views": check_views, "readback": check_readback}
+def check_qstring(ctx, backend, e, text):
+    """a query supplied as one string: without '%' and '+' (whose meaning the routes differ on) it reads back from query_string unchanged"""
+    Y = ctx.yarl(backend)
+    ent = entry.BY_NAME[e]
+    t = entry.prepare(ent, text).replace("%", "").replace("+", "")
+    try:
+        u = ent.make(Y, t)
+    except (ValueError, TypeError):
+        ctx.case(False, label="rejected:" + e)
+        return
+    ctx.case(any(c in "&=;/?:@ " or ord(c) > 0x7E for c in t), label="qstring/" + e, key=(e, backend, t))
+    ctx.check(u.query_string == t, "a query string without escapes does not read back from query_string", observed=u.query_string, expected=t, entry=e)
+
+
+CHECKS = {"views": check_views, "readback": check_readback, "qstring": check_qstring}
+QS_NAMES = [e.name for e in entry.E if e.kind == "qstring"]
 
 RB_NAMES = [e.name for e in entry.E if e.kind == "quote" and (e.readback is not None or e.comp == "qpair")]
 
@@ -136,6 +155,7 @@ def generated(ctx, backend, n):
     ctx.given("views", {"mode": st.sampled_from(["enc", "auto"]), "place": places, "text": esc_heavy()}, max_examples=n // 4, fixed={"backend": backend, "comp": None}, tag="places")
     txt = gen.text(surrogates=False, max_tokens=8, dots=True)
     ctx.given("readback", {"e": st.sampled_from(RB_NAMES), "text": txt}, max_examples=n, fixed={"backend": backend}, tag="rb")
+    ctx.given("qstring", {"e": st.sampled_from(QS_NAMES), "text": gen.text(surrogates=False, pct=False, max_tokens=6, extra=["a=1;b=2", "k;v=1", ";", "a&b", "x=y"])}, max_examples=n // 4, fixed={"backend": backend}, tag="qs")
 
 
 def singles(ctx, backend):
